@@ -26,7 +26,7 @@ func init() {
 }
 
 func runC18(c *eng.Ctx) {
-	c18AppliedMode(c)
+	c18AppliedMode(c, "R4")
 	fn := c.MustFunc("R1", corePkg, "propagateExecutabilityRecursive")
 	if fn == nil {
 		return
